@@ -92,6 +92,18 @@ class SymSelf:
     def myprint(self, msg):
         pass
 
+    def __getattr__(self, name):
+        """a helper method of the real class that the sidecar contracts do not know (introduced by a refactoring): its real
+        body runs on this symbolic instance with the same re-bound globals"""
+        import types as _t
+        import aurel.core as C
+        f = C.AurelCore.__dict__.get(name)
+        g = self.__dict__.get('_glb')
+        if isinstance(f, _t.FunctionType) and g is not None and not name.startswith('__'):
+            nf = _t.FunctionType(f.__code__, g, f.__name__, f.__defaults__, f.__closure__)
+            return _t.MethodType(nf, self)
+        raise AttributeError(name)
+
 
 def fresh_nonneg(c, base):
     v = c.new_int(base)
@@ -509,6 +521,7 @@ def cleanup_paths(verbose):
         arr0 = s.var_importance.arr
         imp0 = lambda k: z3.Select(arr0, k)
         glb = make_globals(c, C.__dict__)
+        s._glb = glb
         drv = Driver(c, s, glb, loops, dom0, la0, imp0)
         loc = {'self': s}
         try:
@@ -595,8 +608,10 @@ def cleanup_bounded_paths(verbose, nkeys, in_age_table):
                 return getattr(sys, n)
         g = dict(real.__globals__)
         g.update(get_size=get_size, sys=Sys())
-        fn = types.FunctionType(real.__code__, g, real.__name__, real.__defaults__, real.__closure__)
-        s = types.SimpleNamespace()
+        from engine.e1 import rebind_class
+        Reb = rebind_class(C.AurelCore, g)          # every method of the real class with the same re-bound globals
+        fn = Reb.__dict__[real.__name__]
+        s = object.__new__(Reb)
         s.data = {k: _Opaque(k) for k in keys}
         s.last_accessed = {k: Z(c.new_int(f'last_{k}')) for k, inn in zip(keys, in_age_table) if inn}
         s.var_importance = {}
@@ -1151,7 +1166,8 @@ def native_history_replay(o=None, nhist=150, length=40, seed=0):
             rel.data[k] = v
         rel.freeze_data()
         if rng.random() < 0.3:
-            rel.var_importance[rng.choice(cheap)] = rng.choice([0.0, 5.0])
+            # a user-set importance on a COMPUTED quantity (never on a frozen input: that would un-freeze it legitimately)
+            rel.var_importance[rng.choice([q for q in cheap if q not in inputs])] = rng.choice([0.0, 5.0])
         ids = {k: id(rel.data[k]) for k in inputs}
         hist = []
         for step in range(length):
